@@ -387,12 +387,14 @@ def conn(ck, thorough, jobs):
     ck.set("conn_outcome_other_side_of_race", s["diverged"])
     ck.set("conn_bursts", {"rounds": s["bursts"], "callers_per_round": s["burst_callers"], "notifiers_per_round": 2,
                            "events": s["burst_events"], "rounds_ended_by_watchdog": s["burst_watchdog_rounds"]})
-    if s["fails"]:
-        return s["cases"]
-    if s["events"] < 10 * s["cases"]:
-        raise vlib.InfraError("hooks silent: only %d events in %d cases" % (s["events"], s["cases"]))
-    if s["bursts"] < nbursts and s["burst_watchdog_rounds"] == 0:
-        raise vlib.InfraError("only %d of %d bursts were run" % (s["bursts"], nbursts))
+    # the harness itself reports only what no trace can show (hangs, garbage on the wire, leftovers); when it
+    # did, the executions recorded so far are still validated, so that the root cause is named as well
+    harness_failed = s["fails"] > 0
+    if not harness_failed:
+        if s["events"] < 10 * s["cases"]:
+            raise vlib.InfraError("hooks silent: only %d events in %d cases" % (s["events"], s["cases"]))
+        if s["bursts"] < nbursts and s["burst_watchdog_rounds"] == 0:
+            raise vlib.InfraError("only %d of %d bursts were run" % (s["bursts"], nbursts))
 
     # --- VAL: TLC validates every recorded execution ---------------------------------------------
     cases = {}
@@ -403,8 +405,10 @@ def conn(ck, thorough, jobs):
             cases[c["id"]] = c
             for e in c["ev"]:
                 kinds[e["e"]] = kinds.get(e["e"], 0) + 1
+    if not cases:
+        return 0
     nscript = sum(1 for c in cases.values() if not c["eager"])
-    for k in ("reg", "wbeg", "wend", "disp", "del", "cancel", "reply", "ret", "pcall", "pong", "stray"):
+    for k in () if harness_failed else ("reg", "wbeg", "wend", "disp", "del", "cancel", "reply", "ret", "pcall", "pong", "stray"):
         least = nscript // (10 if k in ("stray",) else 4)
         if kinds.get(k, 0) < least:
             raise vlib.InfraError("event kind %s recorded only %d times in %d cases: a hook never fired" % (k, kinds.get(k, 0), len(cases)))
@@ -435,7 +439,7 @@ def conn(ck, thorough, jobs):
             ck.violation("JsonRpc.CallsReturn", "conn (burst): calls of callers %s did not return within the watchdog time although the peer answered every request"
                          % c["timedout"], {"events": [render(e) for e in c["ev"]]})
 
-    if ck._nviol:
+    if ck._nviol or harness_failed:
         return len(accepted)
 
     # binding self-tests on forged traces: each must be rejected while its original is accepted
